@@ -105,7 +105,13 @@ def impl(case):
                     kw['sender'] = senders[o['sender']]
                 if not o['byname']:
                     kw['event'] = 'e%d' % o['event']
-                ev.connect(f, **kw)
+                style = case.get('connect_style', 'direct')
+                if style == 'direct':
+                    ev.connect(f, **kw)
+                elif style == 'decorator_args' and kw:
+                    ev.connect(**kw)(f)          # @ev.connect(event=..., sender=..., last=...)
+                else:
+                    ev.connect(f, **kw)
             elif k == 'unconnect':
                 items = []
                 for it in o['items']:
@@ -240,6 +246,7 @@ def nontrivial(case):
 def tally(rep, case, impl_res, ans):
     if case['op'] == 'emitter':
         rep.count('senders:' + case.get('senders', 'plain'))
+        rep.count('connect_style:' + case.get('connect_style', 'direct'))
     rep.count('op:' + case['op'])
     rep.count('len:%d' % min(len(case['ops']), 8))
     if case['op'] == 'emitter':
@@ -277,7 +284,8 @@ def gen(tier, rng):
         for ops in itertools.product(E_ALPHA, repeat=L):
             if well_nested(ops) and any(o['k'] == 'emit' for o in ops):
                 nemit += 1
-                yield dict(p=PID, op='emitter', ops=[dict(o) for o in ops], senders=['plain', 'falsy', 'mixed'][nemit % 3])
+                yield dict(p=PID, op='emitter', ops=[dict(o) for o in ops], senders=['plain', 'falsy', 'mixed'][nemit % 3],
+                           connect_style=['direct', 'decorator_args'][(nemit // 3) % 2])
     for L in range(1, LR + 1):
         for ops in itertools.product(R_ALPHA, repeat=L):
             yield dict(p=PID, op='reporter', ops=[dict(o) for o in ops])
@@ -295,6 +303,7 @@ def gen(tier, rng):
                     break
                 d += (o['k'] == 'enter') - (o['k'] == 'exit')
                 ops.append(dict(o))
-            yield dict(p=PID, op='emitter', ops=ops, senders=rng.pick(['plain', 'falsy', 'mixed']))
+            yield dict(p=PID, op='emitter', ops=ops, senders=rng.pick(['plain', 'falsy', 'mixed']),
+                       connect_style=rng.pick(['direct', 'decorator_args']))
         else:
             yield dict(p=PID, op='reporter', ops=[dict(rng.pick(R_ALPHA)) for _ in range(rng.randrange(3, 12))])
